@@ -39,6 +39,18 @@ func (p *Params) Verify(input VerifierInput) error {
 	proof := input.Proof
 	root := input.MerkleRoot
 
+	// Sanity-check the dimensions of the proof
+	if proof == nil {
+		return errors.New("invalid proof: missing proof")
+	}
+	if len(proof.UAlpha) != p.SizeCodeWord() {
+		return fmt.Errorf("invalid proof: uAlpha has length %v, expected %v", len(proof.UAlpha), p.SizeCodeWord())
+	}
+	if len(proof.OpenedColumns) != len(input.SelectedColumns) || len(proof.MerkleProofOpenedColumns) != len(input.SelectedColumns) {
+		return fmt.Errorf("invalid proof: expected %v opened columns, got %v columns and %v merkle proofs",
+			len(input.SelectedColumns), len(proof.OpenedColumns), len(proof.MerkleProofOpenedColumns))
+	}
+
 	// This checks the consistency between uAlpha and the claimed value
 	uAlphaAtX, err := EvalFextPolyLagrange(input.Proof.UAlpha, input.EvaluationPoint)
 	claimsAtAlpha := EvalFextPolyHorner(input.ClaimedValues, input.Alpha)
@@ -59,6 +71,21 @@ func (p *Params) Verify(input VerifierInput) error {
 	// This checks the consistency between the proof and the selected columns
 	// to the input matrix.
 	for i, c := range input.SelectedColumns {
+
+		if c < 0 || c >= p.SizeCodeWord() {
+			return fmt.Errorf("invalid proof: selected column %v is out of range", c)
+		}
+
+		if len(proof.OpenedColumns[i]) != len(input.ClaimedValues) {
+			return fmt.Errorf("invalid proof: opened column has %v rows, expected %v", len(proof.OpenedColumns[i]), len(input.ClaimedValues))
+		}
+
+		// This checks the consistency between the opened column and uAlpha:
+		// uAlpha is the linear combination of the rows by the powers of alpha,
+		// so its c-th entry must be the same combination of the c-th column.
+		if y := EvalBasePolyHorner(proof.OpenedColumns[i], input.Alpha); y != proof.UAlpha[c] {
+			return fmt.Errorf("invalid proof: the opened column %v is inconsistent with uAlpha", c)
+		}
 
 		sisHash := make([]koalabear.Element, p.Key.Degree)
 		if err := p.Key.Hash(proof.OpenedColumns[i], sisHash); err != nil {
